@@ -3,6 +3,7 @@ package main
 import (
 	"bytes"
 	"encoding/hex"
+	"encoding/json"
 	"fmt"
 	"math"
 	"net"
@@ -15,6 +16,7 @@ import (
 	"github.com/EdgeCast/vflow/ipfix"
 	netflow5 "github.com/EdgeCast/vflow/netflow/v5"
 	netflow9 "github.com/EdgeCast/vflow/netflow/v9"
+	"github.com/EdgeCast/vflow/sflow"
 )
 
 func init() {
@@ -261,6 +263,15 @@ func cmdMeasure(args []tok) string {
 					recs = len(m.DataSets)
 					if m.DataSets != nil {
 						m.JSONMarshal(new(bytes.Buffer))
+					}
+				}
+			case "sflow":
+				d := sflow.NewSFDecoder(bytes.NewReader(p), nil)
+				dg, err := d.SFDecode()
+				if err == nil && dg != nil {
+					recs = len(dg.Samples) + len(dg.Counters)
+					if recs > 0 {
+						json.Marshal(dg)
 					}
 				}
 			case "nf5":
